@@ -108,13 +108,13 @@ func init() {
 						p.Scheds = []c18Sched{{0, 5}}
 					}
 					if s == "slow-then-fast" {
-					// a schedule whose period is far longer than the start delay of its successor never fires at all
-					p.Scheds = []c18Sched{{0, 4000 + 500*rep}, {80, 15}}
-					if rep%2 == 1 {
-						p.Scheds = []c18Sched{{0, 20}, {60, 5000}, {90, 10}}
+						// a schedule whose period is far longer than the start delay of its successor never fires at all
+						p.Scheds = []c18Sched{{0, 4000 + 500*rep}, {80, 15}}
+						if rep%2 == 1 {
+							p.Scheds = []c18Sched{{0, 20}, {60, 5000}, {90, 10}}
+						}
 					}
-				}
-				if s == "overrun-then-switch" {
+					if s == "overrun-then-switch" {
 						p.Scheds = []c18Sched{{0, 20}, {250, 50}}
 					}
 					if s == "restart-before-first-delay" {
